@@ -333,9 +333,6 @@ theorem size_grand (n : Nat) : size (grand n) = n := by
     simp [testBit_grand, mem_range.mp hi]
   rw [this, card_range]
 
-theorem grand_lt (n : Nat) : grand n < 2 ^ n := by
-  unfold grand; have := Nat.two_pow_pos n; omega
-
 /-- only the grand coalition has all `n` players -/
 theorem size_lt_of_ne_grand {n c : Nat} (hc : c < 2 ^ n) (hne : c ≠ grand n) : size c < n := by
   by_contra hge
